@@ -170,7 +170,10 @@ def map_owner(db, ctx):
     for n, _ in walk(re.hir):
         if n.get("k") == "If" and "first_mut" in render(n["cond"]):
             anchor = any(x.get("k") == "Assign" and lit_int(x["r"]) == 0 for x, _ in walk(n["then"]))
-    drains = any(c.get("k") == "MethodCall" and c.get("method") == "drain" and local_name(c["recv"]) == "edits" for c, _ in walk(re.hir))
+    from ..db import param_roles, is_local
+    from .C08 import _EDIT_ROLES
+    R_ = param_roles(re, _EDIT_ROLES)
+    drains = any(c.get("k") == "MethodCall" and c.get("method") == "drain" and is_local(c["recv"], R_.get("edits")) for c, _ in walk(re.hir))
     ctx.ob("resolve_edits|anchor-0", anchor, "resolve_edits forces target_mapping[0] = 0 on its normal exit: %s" % anchor, fn=re)
     ctx.ob("resolve_edits|drains", drains, "resolve_edits drains the pending edits: %s" % drains, fn=re)
     sb = db.one("start_build", "InputBuffer")
@@ -180,11 +183,21 @@ def map_owner(db, ctx):
                 for c, _ in walk(sb.hir))
     ctx.ob("start_build|identity-map", ident, "start_build installs m2o = 0..=len (identity with end sentinel): %s" % ident, fn=sb)
     we = db.one("with_editor", "InputBuffer")
-    ok = False
+    # by reachability, in whatever form the decision is written: commit() is reachable exactly when the caller's closure returned
+    # Ok, rollback() exactly when it returned Err
+    from ..flow import result_evaluator, holds_at
+    from ..db import path_conditions
+    params = {p_.get("lid") for p_ in (we.info.get("params") or []) if isinstance(p_, dict)}
+    is_func = lambda e: e.get("k") == "Call" and isinstance(e.get("f"), dict) and e["f"].get("res") == "local" and e["f"].get("lid") in params
+    sites = {"commit": [], "rollback": []}
     for n, _ in walk(we.hir):
-        if n.get("k") == "Match" and n.get("src") == "Normal":
-            arms = {(a["pat"].get("path") or "").split("::")[-1]: render(a["body"]) for a in n["arms"]}
-            ok = "commit" in arms.get("Ok", "") and "rollback" in arms.get("Err", "")
+        if n.get("k") == "MethodCall" and n.get("method") in sites:
+            sites[n["method"]].append(n)
+    def reach(n, okv):
+        return holds_at(path_conditions(n["id"], we.hir), result_evaluator(is_func, okv))
+    ok = bool(sites["commit"]) and bool(sites["rollback"]) \
+        and any(reach(n, True) is not False for n in sites["commit"]) and all(reach(n, False) is False for n in sites["commit"]) \
+        and any(reach(n, False) is not False for n in sites["rollback"]) and all(reach(n, True) is False for n in sites["rollback"])
     ctx.ob("with_editor|commit-or-rollback", ok, "with_editor commits on Ok and rolls back on Err: %s" % ok, fn=we)
 
 
@@ -215,3 +228,11 @@ def no_stale_results(db, ctx):
 def shared_input_reeval(db, ctx):
     from . import C09
     C09.shared_input(db, ctx)
+
+
+@rule("C01.unit-length", "the inner boundaries of A/B split units come from the stored head-word length, which must be the byte length of the unit's index "
+                         "key (what the text matched), not of its display headword: otherwise a unit overruns its parent (begin > end) — "
+                         "re-evaluation of C05.field-source")
+def unit_length_reeval(db, ctx):
+    from . import C05
+    C05.field_source(db, ctx)
